@@ -210,7 +210,7 @@ def run(tier, seed):
     if not quick:
         for i, key in enumerate(strict):
             fut["strict_" + key] = ex.submit(tlc_part, "strict", "Compare_strict_" + key, 1, files["strict"], 0.4 + i / 10.0)
-    fbuild_cms = ex.submit(core.build_many, [core.BuildSpec(n, src, cc="clang") for n, _, src in cms_mods], os.path.join(wd, "b_cms"), 8)
+    fbuild_cms = ex.submit(core.build_many, [core.BuildSpec(n, src, cc="clang") for n, _, src in cms_mods], os.path.join(wd, "b_cms"), 8, 3000)
 
     # ------------------------------------------------------------------ switch family: TLC first, then render
     r = fut["switch"].result()
@@ -223,7 +223,7 @@ def run(tier, seed):
         core.die("Compare/switch published %d cases, expected %d" % (len(swcases), nsw_want))
     by_fam = {"bytes": [c for c in swcases if c["fam"] == "bytes" and not c["hz"]], "ustr": [c for c in swcases if c["fam"] == "ustr" and not c["hz"]]}
     hazards = [c for c in swcases if c["hz"]]
-    per_typing = 60 if quick else 420
+    per_typing = 50 if quick else 420
     swfuncs = []    # dicts: name, case, typing, kind ('chain'|'expr'), neg, ectx, pyx, py
     k = 0
     for fam, typings in lc.SW_TYPINGS.items():
@@ -265,7 +265,7 @@ def run(tier, seed):
     specs = [core.BuildSpec(n, src, cc="clang") for n, _, src in sw_mods] + \
             [core.BuildSpec(n, src, cc="clang", directives={"optimize.use_switch": False}) for n, _, src in nosw_mods] + \
             [core.BuildSpec(n, src, cc="clang") for n, _, src in hz_mods]
-    fbuild_sw = ex.submit(core.build_many, specs, os.path.join(wd, "b_sw"), 8)
+    fbuild_sw = ex.submit(core.build_many, specs, os.path.join(wd, "b_sw"), 8, 3000)
     mark("switch_rendered")
 
     # ------------------------------------------------------------------ the other TLC runs
@@ -372,6 +372,8 @@ def run(tier, seed):
     ok_pairs = []    # (want, got) of agreeing cases, for the binding self-test
 
     def build_failed(b, what, hz=False, extra=None):
+        if b.stage == "timeout":
+            core.die("build of %s timed out (overloaded machine?) -- no verdict" % b.name)
         d = {"part": "build", "what": what, "hz": hz, "stage": b.stage}
         d.update(extra or {})
         rep.disagree(d, "build-failed", {"module": b.name, "errors": b.errors[-2500:]})
@@ -382,6 +384,8 @@ def run(tier, seed):
     jobs = []
     for (mname, names, _), b in zip(cms_mods, builds_cms):
         if not b.ok:
+            if b.stage == "timeout":
+                core.die("build of %s timed out (overloaded machine?) -- no verdict" % b.name)
             if mname.startswith("c19x"):
                 sshape = per_func[names[0]][0]
                 d = descriptor(sshape, per_func[names[0]][1][0])
@@ -535,3 +539,38 @@ def run(tier, seed):
                                      "exception types are compared, not messages"],
                         violations=rep.n_violations())
     return rc
+
+
+def replay(path, seed):
+    """Re-run the cases of one replay file on a freshly compiled module: exit 1 if any still differs."""
+    import re
+    with open(path) as f:
+        rp = json.load(f)
+    d = rp["descriptor"]
+    bad = 0
+    for i, case in enumerate(rp["cases"]):
+        src = case.get("function")
+        if not src:
+            print("case %d: build-level record, nothing to re-run: %s" % (i, json.dumps(case)[:300]))
+            bad += 1
+            continue
+        name = re.search(r"def (\w+)\(", src).group(1)
+        directives = {} if d.get("use_switch", True) else {"optimize.use_switch": False}
+        b = core.build_many([core.BuildSpec("c19r%d" % i, lc.HEADER_PYX + src, cc="clang", directives=directives)])[0]
+        if not b.ok:
+            print("case %d: build failed (%s): %s" % (i, b.stage, b.errors[-600:]))
+            bad += 1
+            continue
+        if d["part"] == "switch":
+            call = ["RX", [name, [lc.subject_arg(d["fam"], d["typing"], case["x"])]]]
+        elif d["part"] == "strin":
+            call = ["RX", [name, [lc.xrec_arg(case["args"])]]]
+        else:
+            call = ["RC", [name, [case["args"]]]]
+        o = run_module(b, [call])[0]
+        got = o[1] if isinstance(o, list) and len(o) == 2 else o
+        same = got == case["want"]
+        print("case %d: %s args=%s want=%s got=%s -> %s" % (i, name, json.dumps(case.get("args", case.get("x"))), case["want"], got,
+                                                              "agrees now" if same else "DIFFERS"))
+        bad += not same
+    return 1 if bad else 0
